@@ -45,6 +45,29 @@ func init() {
 	})
 
 	register(&PropCheck{
+		ID:      "C07",
+		PkgDirs: []string{"internal/transfer"},
+		Level:   "other",
+		Explanation: "The real RecvManifestMultiStream (and the legacy receiver in the thorough tier) is executed symbolically from its entry against a scripted connection: the control stream carries a manifest whose root, directory entry path, file entry path (with the matching FileBegin record written without sender-side validation) and item id are symbolic strings of up to 4 (quick) bytes over the full byte alphabet, in both root-directory modes, resume on and off. filepath.Join/Clean/Dir/FromSlash run from the standard library's own SSA; the filesystem is the effect-log model. After the run every mutating effect (mkdir of a new directory, create, write, truncate, rename, remove) must have a cleaned path equal to the output directory or below it - a solver-decided prefix condition over the symbolic path bytes. A second obligation is the validator lemma: any path accepted by validateRelPath stays inside the base directory once joined. Counterexamples replay natively: the same harness runs the real receiver in a temp directory and lists what appeared outside the output directory.",
+		Rule:        "assertion sites: vAssert lines of H_C07_*",
+		Assumptions: []string{"hostile strings up to 4 bytes (5 for the validator lemma); longer escapes rely on the same code paths", "symlinks already present inside the output directory and Windows path rules are outside", "JSON codec opaque in the engine (real natively)", "internal/app's hasResumeData/clearResumeData (offer RootName) are not covered by this check"},
+		Bounds:      func(tier string) string { return "root <= 3 bytes, directory/file path and item id <= 4 bytes, all 256 byte values; validator lemma for paths <= 5 bytes" },
+		Jobs: func(tier string, prog *ssa.Program) []*Job {
+			js := []*Job{hj("C07.validator", "H_C07_validator", "validated paths stay inside"), hj("C07.receiver", "H_C07_receiver", "hostile manifest fields through the real receiver")}
+			if tier == "thorough" {
+				js = append(js, hj("C07.receiver-legacy", "H_C07_receiver_legacy", "hostile manifest fields through the legacy receiver"))
+			}
+			for _, j := range js[1:] {
+				j.GoInlineCalls = []string{"readControlMessage", "io.ReadFull", "WriteAt"}
+				j.TimersNeverFire = true
+				j.BlockedOK = true
+				j.Workers = 12
+			}
+			return js
+		},
+	})
+
+	register(&PropCheck{
 		ID:      "C08",
 		PkgDirs: []string{"internal/app"},
 		Level:   "other",
